@@ -507,6 +507,13 @@ func (g *vtC01Gen) podOp() bool {
 			}
 		default:
 			qn = g.someQuota()
+			// one event may carry a quota change together with other changes (re-list / combined patch)
+			if g.r.Intn(2) == 0 {
+				n[1], n[2] = g.amount(12), g.amount(12)
+			}
+			if g.r.Intn(4) == 0 {
+				n[3] = 1 - n[3]
+			}
 		}
 		rec := append([]int64{2, qn, p.label}, n...)
 		rec = append(rec, p.obj...)
